@@ -216,7 +216,7 @@ class C04:
             if "'" not in v and "\\" not in v and "{" not in v and "}" not in v and "\n" not in v:
                 src = line("f'" + v + "{w}'")
                 self.judge(rec, "fstring", path, src, self.run(src, w="W"), wrap([v + "W"]), v, pos)
-        if (not forms or "fstring-triple" in forms) and not ("$" in v or "~" in v) and not any(c in v for c in "\u2028\u2029\x85\x0b\x0c\x1c\x1d\x1e\r"):
+        if (not forms or "fstring-triple" in forms) and (forms or hash((v, pos)) % 3 == 0) and not ("$" in v or "~" in v) and not any(c in v for c in "\u2028\u2029\x85\x0b\x0c\x1c\x1d\x1e\r"):
             # triple-quoted f-strings: literal segments with real newlines, quote characters and backslash escapes around a field
             for q in ('"""', "'''"):
                 esc = v.replace("\\", "\\\\").replace("{", "{{").replace("}", "}}").replace(q[0], "\\" + q[0]).replace("\t", "\\t")
